@@ -34,6 +34,7 @@ import LfsModel.Fsck
 import LfsModel.FsckScan
 import LfsModel.Rewrite
 import LfsModel.Locks
+import LfsModel.PostCommit
 open Lfs
 
 namespace Oracle
@@ -740,6 +741,19 @@ def c16 : List String → String
          | [p, o] => (do let p ← p.toNat?; let o ← o.toNat?; pure (⟨0, p, o⟩ : Lk.Lock))
          | _ => none
        if Lk.pushRejected (v == "1") t tl then "rejected" else "accepted")
+  | ["changed", parents, tree] =>
+    -- trees: `path:blob,…` (`-` = empty); parents separated by `;` (`none` = a root commit)
+    let tr (x : String) : Option PostCommit.Tree :=
+      if x == "-" then some [] else (x.splitOn ",").mapM fun e =>
+        match e.splitOn ":" with
+        | [p, b] => do pure ((← p.toNat?), (← b.toNat?))
+        | _ => none
+    let ps? : Option (List PostCommit.Tree) := if parents == "none" then some [] else (parents.splitOn ";").mapM tr
+    (match ps?, tr tree with
+     | some ps, some t =>
+       let r := (PostCommit.changed ps t).eraseDups
+       if r.isEmpty then "-" else String.intercalate "," (sortStr (r.map toString))
+     | _, _ => "bad-op")
   | _ => "bad-op"
 
 def answer (line : String) : String :=
